@@ -159,6 +159,72 @@ def gen3(outdir, n, seed):
     print(len(c), 'candidate replacements,', len(chosen), 'mutants written to', outdir)
 
 
+ENUMS = {
+    'NodeState': ['Indeterminate', 'Infeasible', 'Feasible', 'FeasibleWitness'],
+    'PolytopeStatus': ['Infeasible', 'Unbounded', 'Optimal', 'Error'],
+    'Layer': ['Linear', 'ReLU', 'LeakyReLU', 'HardTanh', 'HardSigmoid', 'Argmax', 'ClassChar'],
+    'PolyRepr': ['MatrixLeqBias', 'MatrixBiasLeqZero', 'MatrixGeqBias', 'MatrixBiasGeqZero'],
+    'NodeError': ['InvalidIndex', 'MissingChild', 'MissingParent', 'NodeExists', 'ChildExists', 'RootNode', 'NodeNotFound'],
+    'OptimizationDirection': ['Minimize', 'Maximize'], 'ComparisonOp': ['Le', 'Ge', 'Eq'], 'Bound': ['Included', 'Excluded', 'Unbounded'],
+    'Error': ['Infeasible', 'Unbounded'],
+}
+BARE = {'First': ['Middle', 'Last', 'Only'], 'Middle': ['First', 'Last', 'Only'], 'Last': ['First', 'Middle', 'Only'], 'Only': ['First', 'Middle', 'Last'],
+        'Some': [], 'Ok': [], 'Err': []}
+
+
+def variant_candidates():
+    cands = []
+    for path in source_files():
+        lines = open(path).read().split('\n')
+        end = len(lines)
+        for i, l in enumerate(lines):
+            if l.strip() == '#[cfg(test)]' and i + 1 < len(lines) and lines[i + 1].strip().startswith('mod '):
+                end = i
+                break
+        for i in range(end):
+            l = lines[i]
+            if SKIP_LINE.match(l) or l.strip().startswith('//'):
+                continue
+            for en, vs in ENUMS.items():
+                for v in vs:
+                    for m in re.finditer(r'\b%s::%s\b' % (en, v), l):
+                        for w in vs:
+                            if w != v:
+                                cands.append((path, i, l, l[:m.start()] + '%s::%s' % (en, w) + l[m.end():], -1))
+            for v, ws in BARE.items():
+                for m in re.finditer(r'(?<![:A-Za-z_])%s\b(?!\()' % v, l):
+                    for w in ws:
+                        cands.append((path, i, l, l[:m.start()] + w + l[m.end():], -1))
+    return cands
+
+
+def gen4(outdir, n, seed):
+    os.makedirs(outdir, exist_ok=True)
+    c = variant_candidates()
+    random.Random(seed).shuffle(c)
+    seen, chosen = {}, []
+    for x in c:
+        key = (x[0], x[1], x[3])
+        if key in seen:
+            continue
+        seen[key] = 1
+        chosen.append(x)
+        if len(chosen) >= n:
+            break
+    index = []
+    for j, (path, i, old, new, k) in enumerate(chosen):
+        rel = os.path.relpath(path, REPO)
+        a = open(path).read().split('\n')
+        b = list(a)
+        b[i] = new
+        diff = '\n'.join(difflib.unified_diff(a, b, 'a/' + rel, 'b/' + rel, lineterm='', n=3)) + '\n'
+        name = 'x%04d.diff' % j
+        open(os.path.join(outdir, name), 'w').write('diff --git a/%s b/%s\n' % (rel, rel) + diff)
+        index.append({'name': name, 'file': rel, 'line': i + 1, 'old': old.strip(), 'new': new.strip(), 'op': 'wrong variant'})
+    json.dump(index, open(os.path.join(outdir, 'index.json'), 'w'), indent=1)
+    print(len(c), 'candidate replacements,', len(chosen), 'mutants written to', outdir)
+
+
 def gen(outdir, n, seed, ops=None):
     ops = ops or OPS
     os.makedirs(outdir, exist_ok=True)
@@ -256,6 +322,8 @@ if __name__ == '__main__':
     cmd = sys.argv[1]
     if cmd == 'gen':
         gen(sys.argv[2], int(sys.argv[3]) if len(sys.argv) > 3 else 400, int(sys.argv[4]) if len(sys.argv) > 4 else 1)
+    elif cmd == 'gen4':
+        gen4(sys.argv[2], int(sys.argv[3]) if len(sys.argv) > 3 else 400, int(sys.argv[4]) if len(sys.argv) > 4 else 5)
     elif cmd == 'gen3':
         gen3(sys.argv[2], int(sys.argv[3]) if len(sys.argv) > 3 else 400, int(sys.argv[4]) if len(sys.argv) > 4 else 3)
     elif cmd == 'gen2':
